@@ -348,7 +348,14 @@ func (c *simCtx) splitOfSubject(v ssa.Value) bool {
 		return true
 	}
 	call, ok := resolve(v).(*ssa.Call)
-	if !ok || !calleeIs(call, "strings", "Split") {
+	if !ok {
+		return false
+	}
+	need := int64(0)
+	if c.sc.Kind == scArity {
+		need = c.sc.N
+	}
+	if !isSplitCall(call, need) {
 		return false
 	}
 	return c.isSubject(call.Call.Args[0])
